@@ -6,6 +6,7 @@ import (
 	"testing"
 	"unicode"
 
+	"github.com/osteele/liquid"
 	"pgregory.net/rapid"
 
 	"verifharness/hx"
@@ -17,6 +18,18 @@ type c13Case struct {
 	P     *hx.Program `json:"p"`
 	Hy    []bool      `json:"hy"`              // two flags (left, right) per tag/object token, in order
 	Tight []bool      `json:"tight,omitempty"` // per tag/object token: no padding between delimiter/hyphen and content
+	Alt   int         `json:"alt,omitempty"`   // 0: default delimiters; 1, 2: an engine with delimiters of its own, of unequal lengths (C19: equivalent)
+}
+
+var c13Delims = []hx.Delims{hx.DefaultDelims, {OL: "{{{", OR: "}}}", TL: "{%", TR: "%}"}, {OL: "<<", OR: ">>", TL: "<?lq", TR: "?>"}}
+
+func c13Engine(alt int) (*liquid.Engine, hx.Delims) {
+	e := newEngine(nil)
+	d := c13Delims[alt%len(c13Delims)]
+	if alt%len(c13Delims) != 0 {
+		e.Delims(d.OL, d.OR, d.TL, d.TR)
+	}
+	return e, d
 }
 
 func stripWS(s string) string {
@@ -101,11 +114,13 @@ func c13Strong(toks []hx.Tok, hy []bool) ([]hx.Tok, bool, bool) {
 
 var c13Hyphens = hx.Define("c13.hyphens", func(c *c13Case, s *hx.Sub) *hx.Violation {
 	toks := hx.MergeText(hx.Tokens(c.P.Nodes, nil))
-	plain := hx.SpellTight(toks, hx.DefaultDelims, nil, c.Tight)
-	hyph := hx.SpellTight(toks, hx.DefaultDelims, c.Hy, c.Tight)
+	_, delims := c13Engine(c.Alt)
+	engine := func() *liquid.Engine { e, _ := c13Engine(c.Alt); return e }
+	plain := hx.SpellTight(toks, delims, nil, c.Tight)
+	hyph := hx.SpellTight(toks, delims, c.Hy, c.Tight)
 	b := c.P.Binds
-	o0 := hx.RenderWith(newEngine(nil), plain, b.Realise())
-	o1 := hx.RenderWith(newEngine(nil), hyph, b.Realise())
+	o0 := hx.RenderWith(engine(), plain, b.Realise())
+	o1 := hx.RenderWith(engine(), hyph, b.Realise())
 	for _, o := range []hx.Outcome{o0, o1} {
 		if o.Panic != nil {
 			return hx.V("panic@"+o.Panic.Site, "%q: %v", hyph, o.Panic)
@@ -128,9 +143,9 @@ var c13Hyphens = hx.Define("c13.hyphens", func(c *c13Case, s *hx.Sub) *hx.Violat
 	}
 	// (C) every hyphen faces literal text: exactly that adjacent whitespace is removed
 	if st, ok, bites := c13Strong(toks, c.Hy); ok {
-		want := hx.RenderWith(newEngine(nil), hx.SpellTight(st, hx.DefaultDelims, nil, c.Tight), b.Realise())
+		want := hx.RenderWith(engine(), hx.SpellTight(st, delims, nil, c.Tight), b.Realise())
 		if !want.OK() || want.Out != o1.Out {
-			return hx.V("c13:adjacent-whitespace", "%q with %v renders %q\n   but the same template with the hyphens dropped and the adjacent literal whitespace deleted, %q, renders %v", hyph, b.Logical(), o1.Out, hx.Spell(st, hx.DefaultDelims, nil), want)
+			return hx.V("c13:adjacent-whitespace", "%q with %v renders %q\n   but the same template with the hyphens dropped and the adjacent literal whitespace deleted, %q, renders %v", hyph, b.Logical(), o1.Out, hx.Spell(st, delims, nil), want)
 		}
 		s.Class("strong-relation")
 		if bites {
@@ -154,7 +169,7 @@ func TestC13(t *testing.T) {
 	col.Corpus()
 	env := col.Env
 
-	chk := c13Hyphens.On(col, "rapid: programs over objects, assign, if/elsif/else, unless, case/when, for/tablerow with else, break/continue, cycle, capture, comment and raw blocks whose text tokens are every mix of spaces, tabs, newlines and non-whitespace (incl. whitespace-only), and whose values may start or end with whitespace; each of the 2k delimiter sides is a hyphen slot: all 2^(2k) subsets when 2k <= 10, sampled subsets otherwise. All renders by the implementation: (A) outputs with and without hyphens are equal after deleting all whitespace, both fail or both succeed; (B) the hyphenated output is obtainable from the plain one by deleting whitespace only; (C) when every hyphen faces a literal text token or the template boundary (inner sides of raw/comment excluded) the output equals that of the template with hyphens dropped and exactly that adjacent whitespace deleted. Non-trivial: a hyphen faces text that has whitespace on that side (C), or the outputs differ; distinct by (template, subset, bindings)", false)
+	chk := c13Hyphens.On(col, "rapid: programs over objects, assign, if/elsif/else, unless, case/when, for/tablerow with else, break/continue, cycle, capture, comment and raw blocks whose text tokens are every mix of spaces, tabs, newlines and non-whitespace (incl. whitespace-only), and whose values may start or end with whitespace; each of the 2k delimiter sides is a hyphen slot: all 2^(2k) subsets when 2k <= 10, sampled subsets otherwise; a fifth of the programs run on an engine configured with delimiters of unequal lengths ({{{ }}} {% %}, << >> <?lq ?>). All renders by the implementation: (A) outputs with and without hyphens are equal after deleting all whitespace, both fail or both succeed; (B) the hyphenated output is obtainable from the plain one by deleting whitespace only; (C) when every hyphen faces a literal text token or the template boundary (inner sides of raw/comment excluded) the output equals that of the template with hyphens dropped and exactly that adjacent whitespace deleted. Non-trivial: a hyphen faces text that has whitespace on that side (C), or the outputs differ; distinct by (template, subset, bindings)", false)
 	prof := hx.FullProfile()
 	prof.Tablerow, prof.WSText, prof.MaxNodes, prof.CapturePrintOnly, prof.LongText = true, true, 8, true, true
 	col.Rapid(chk.Sub, env.PerShard(env.Pick(10000, 150000)), func(t *rapid.T) {
@@ -166,8 +181,13 @@ func TestC13(t *testing.T) {
 		if k == 0 {
 			return
 		}
+		// a fifth of the programs run on an engine with delimiters of its own; "Tight" spelling stays with the defaults
+		alt := 0
+		if rapid.IntRange(0, 4).Draw(t, "alt") == 2 {
+			alt = rapid.IntRange(1, 2).Draw(t, "altset")
+		}
 		var tight []bool
-		if rapid.IntRange(0, 2).Draw(t, "tight") == 0 {
+		if alt == 0 && rapid.IntRange(0, 2).Draw(t, "tight") == 0 {
 			tight = rapid.SliceOfN(rapid.Bool(), k, k).Draw(t, "tightflags")
 		}
 		if 2*k <= 10 {
@@ -176,7 +196,7 @@ func TestC13(t *testing.T) {
 				for i := range hy {
 					hy[i] = mask&(1<<i) != 0
 				}
-				if v := chk.Run(&c13Case{P: p, Hy: hy, Tight: tight}); v != nil {
+				if v := chk.Run(&c13Case{P: p, Hy: hy, Tight: tight, Alt: alt}); v != nil {
 					t.Fatalf("%s", v.Message)
 				}
 			}
@@ -191,7 +211,7 @@ func TestC13(t *testing.T) {
 					hy[i] = hy[i] && rapid.IntRange(0, 3).Draw(t, "sparse") == 0
 				}
 			}
-			if v := chk.Run(&c13Case{P: p, Hy: hy, Tight: tight}); v != nil {
+			if v := chk.Run(&c13Case{P: p, Hy: hy, Tight: tight, Alt: alt}); v != nil {
 				t.Fatalf("%s", v.Message)
 			}
 		}
